@@ -62,7 +62,9 @@ BOUNDS = ("histories of 2-3 (quick) / 3-4 (thorough) constructor calls drawn fro
 OUTSIDE = ("longer histories; ill-typed constructions (rejected by the type checker: see C14 for what a rejected construction leaves behind); "
            "Div by a constant-zero divisor (the type checker divides by it: pruned); timing / presence / Dot / trajectory-constraint nodes; XOr; "
            "floats that are not dyadic; Fractions with other symbolic denominators")
-ASSUMPTIONS = ["symbolic shards: the type manager's tables are keyed syntactically (two types with equal symbolic bounds are two objects; the library "
+ASSUMPTIONS = ["symbolic shards: comparisons of a symbolic int with +-inf (TypeChecker.walk_plus/minus/times) are answered exactly by vf/infshim.py instead of "
+               "a floating-point solver query",
+               "symbolic shards: the type manager's tables are keyed syntactically (two types with equal symbolic bounds are two objects; the library "
                "compares numeric types by bounds, never by identity)",
                "symbolic shards: hash-consing tables are association lists compared with == (S2), so two symbolic literals share a node exactly "
                "when the solver allows them to be equal; the concrete shards use the real dict",
@@ -323,7 +325,8 @@ def h_history(ctx, ops, plan, lits=None, forms=None, leaves=("b1", "b2"), max_li
         if ctx.mode == "sym":
             # the TYPE tables (not the subject here) are keyed syntactically: IntType(s, s) of a symbolic literal never forks on
             # "same bounds as an earlier type"; types are compared by their bounds wherever the library compares them
-            from vf import shims
+            from vf import infshim, shims
+            infshim.install()  # int-vs-infinity comparisons of the type checker answered exactly (no floating-point query)
             env.type_manager._ints = shims.SynMap(list(env.type_manager._ints.items()))
             env.type_manager._reals = shims.SynMap(list(env.type_manager._reals.items()))
         w = _world(env)
@@ -525,21 +528,25 @@ def shards(tier, seed):
             lits="concrete" if numeric else None, forms=[2, 4] if numeric else None, max_lits=2 if deep else 1,
             window=2 if deep else None)
     # ---- symbolic literals: sharing of constants decided by the solver at the real lookup
-    # (arithmetic nodes over symbolic literals are not built: TypeChecker.walk_plus/minus/times compare the symbolic bound with
-    #  float("inf"), a floating-point query per node that z3 answers in 5-10 s or not at all; Plus1/Times1 return their promoted operand)
     consts = ["Int", "Real", "Plus1", "Times1"]
     for first in consts if deep else consts[:3]:
         add(f"sym-const-{first}", ops=consts, plan=[first, "free"] + (["free"] if deep else []), lits="sym", leaves=["n"], max_lits=4)
     add("sym-const-again", ops=consts, plan=["free", "again"] + (["again"] if deep else []), lits="sym", leaves=["n"], max_lits=4)
     for nm, ops, forms in (("le-ge-int", ["LE", "GE"], ["int"]), ("le-ge-frac2", ["LE", "GE"], ["frac2"]), ("lt-gt-frac4", ["GT", "LT"], ["frac4"]),
                            ("lt-gt-int", ["LT", "GT"], ["int"]), ("eq-le-int", ["Equals", "LE"], ["int"]), ("eq-ge-frac2", ["EqIffN", "GE"], ["frac2"]),
-                           ("infix-int", ["ige", "ile", "LE"], ["int"]), ("infix-frac2", ["igt", "ilt", "mEquals"], ["frac2"])):
+                           ("infix-int", ["ige", "ile", "LE"], ["int"]), ("infix-frac2", ["igt", "ilt", "mEquals"], ["frac2"]),
+                           ("plus-minus-int", ["Plus2", "Minus"], ["int"]), ("plus-times-int", ["PlusL", "Times2"], ["int"]),
+                           ("iadd-minus-int", ["iadd", "isub", "ineg"], ["int"])):
         if not deep and nm == "infix-frac2":
             continue
         plan = ["free", "free"] + (["again"] if forms == ["int"] or deep else []) + (["again"] if deep and forms == ["int"] else [])
         if forms == ["frac4"] and not deep:
             plan[0] = ops[0]
-        add(f"sym-{nm}", ops=ops, plan=plan, lits="sym", forms=forms, leaves=["n"], max_lits=2 if not deep else 3)
+        arith = ops[0][0] in "Pi" and ops[0] not in ("ige",)
+        if "Times2" in ops and not deep:
+            plan = ["free", "again"]  # the type of a product takes min/max of four symbolic products: many forks per node
+        add(f"sym-{nm}", ops=ops, plan=plan, lits="sym", forms=forms, leaves=["n"], max_lits=2 if not deep else 3,
+            window=1 if arith else None, int_range=[-8, 8] if arith else [None, None])
     return out
 
 
